@@ -3,7 +3,7 @@
    render both.  Output of a case: model lines, then "#SPEC", then oracle lines (or one line
    "EXEMPT <reason>" when the oracle does not apply, e.g. a schema that is not well-formed). *)
 From GT Require Export Sexp Render.
-From GTS Require Import SpecLin Annot WfSchema SpecValid SpecCollect SpecRules.
+From GTS Require Import SpecLin Annot WfSchema SpecValid SpecCollect SpecRules ExtOps.
 Local Open Scope string_scope.
 
 Definition render_annot (s : sdocument) (d : document) : list string :=
@@ -92,6 +92,16 @@ Definition run_case (s : sdocument) (op : string) (args : list sexp) : list stri
                                                    else ["EXEMPT duplicate-fragment-names"]))
              | None => ["BADINPUT"]
              end
+    | _ => ["BADINPUT"]
+    end
+  else if String.eqb op "ext" then
+    match args with
+    | [Atom dp; SL (Atom _ :: vals)] =>
+        match parse_N dp, d_list d_value vals with
+        | Some n, Some vs =>
+            List.app (ext_lines s (N.to_nat n) vs false) (spec_section s (ext_lines s (N.to_nat n) vs true))
+        | _, _ => ["BADINPUT"]
+        end
     | _ => ["BADINPUT"]
     end
   else ["BADOP"].
